@@ -6,12 +6,13 @@ every NON-ghost field; every step of `Pko.Model.Phase` maps related worlds to re
 returns the same result.  Core Lean only.
 -/
 import Pko.Model.Converge
+import Pko.Lemmas.Watch
 
 namespace Pko.Props.C10Lift
 open Pko.Kube Pko.Model.Phase Pko.Model.ObjectSet Pko.Model.Status Pko.Model.Converge
 
 /-- **Equal up to ghost state**: the two worlds agree on every field except the ghost fields
-`gw`, `crashAt`, `snap`, `ticks`. -/
+`gw`, `crashAt`, `snap`, `ticks`, `snapW`. -/
 structure GhostEq (w w' : World) : Prop where
   store : w.store = w'.store
   writes : w.writes = w'.writes
@@ -21,38 +22,39 @@ structure GhostEq (w w' : World) : Prop where
   phaseEvents : w.phaseEvents = w'.phaseEvents
   remoteRefs : w.remoteRefs = w'.remoteRefs
   applied : w.applied = w'.applied
+  watched : w.watched = w'.watched     -- NOT ghost: the process's cache registrations are read (`World.started`)
 
 /-- erase the ghost fields. -/
-def eraseW (w : World) : World := { w with gw := 0, crashAt := none, snap := none, ticks := [] }
+def eraseW (w : World) : World := { w with gw := 0, crashAt := none, snap := none, ticks := [], snapW := none }
 
 /-- `GhostEq` is exactly "equal after erasing the ghost fields". -/
 theorem ghostEq_iff_erase (w w' : World) : GhostEq w w' ↔ eraseW w = eraseW w' := by
   constructor
   · intro h
-    obtain ⟨store, writes, env, events, phases, phaseEvents, remoteRefs, applied, gw, crashAt, snap, ticks⟩ := w
-    obtain ⟨store', writes', env', events', phases', phaseEvents', remoteRefs', applied', gw', crashAt', snap', ticks'⟩ := w'
-    obtain ⟨h1, h2, h3, h4, h5, h6, h7, h8⟩ := h
-    simp only at h1 h2 h3 h4 h5 h6 h7 h8
-    subst h1 h2 h3 h4 h5 h6 h7 h8
+    obtain ⟨store, writes, env, events, phases, phaseEvents, remoteRefs, applied, gw, crashAt, snap, ticks, watched, snapW⟩ := w
+    obtain ⟨store', writes', env', events', phases', phaseEvents', remoteRefs', applied', gw', crashAt', snap', ticks', watched', snapW'⟩ := w'
+    obtain ⟨h1, h2, h3, h4, h5, h6, h7, h8, h9⟩ := h
+    simp only at h1 h2 h3 h4 h5 h6 h7 h8 h9
+    subst h1 h2 h3 h4 h5 h6 h7 h8 h9
     rfl
   · intro h
     have e : ∀ {α : Type} (f : World → α), f (eraseW w) = f (eraseW w') := fun f => congrArg f h
     exact ⟨e World.store, e World.writes, e World.env, e World.events, e World.phases, e World.phaseEvents,
-      e World.remoteRefs, e World.applied⟩
+      e World.remoteRefs, e World.applied, e World.watched⟩
 
-theorem GhostEq.refl (w : World) : GhostEq w w := ⟨rfl, rfl, rfl, rfl, rfl, rfl, rfl, rfl⟩
+theorem GhostEq.refl (w : World) : GhostEq w w := ⟨rfl, rfl, rfl, rfl, rfl, rfl, rfl, rfl, rfl⟩
 
 theorem GhostEq.symm {w w' : World} (h : GhostEq w w') : GhostEq w' w :=
   ⟨h.store.symm, h.writes.symm, h.env.symm, h.events.symm, h.phases.symm, h.phaseEvents.symm,
-   h.remoteRefs.symm, h.applied.symm⟩
+   h.remoteRefs.symm, h.applied.symm, h.watched.symm⟩
 
 theorem GhostEq.trans {a b c : World} (h1 : GhostEq a b) (h2 : GhostEq b c) : GhostEq a c :=
   ⟨h1.store.trans h2.store, h1.writes.trans h2.writes, h1.env.trans h2.env, h1.events.trans h2.events,
    h1.phases.trans h2.phases, h1.phaseEvents.trans h2.phaseEvents, h1.remoteRefs.trans h2.remoteRefs,
-   h1.applied.trans h2.applied⟩
+   h1.applied.trans h2.applied, h1.watched.trans h2.watched⟩
 
 /-- erasing is harmless: every world is ghost-equal to its erasure. -/
-theorem ghostEq_erase (w : World) : GhostEq w (eraseW w) := ⟨rfl, rfl, rfl, rfl, rfl, rfl, rfl, rfl⟩
+theorem ghostEq_erase (w : World) : GhostEq w (eraseW w) := ⟨rfl, rfl, rfl, rfl, rfl, rfl, rfl, rfl, rfl⟩
 
 /-- a step `World → World × α` on two worlds: ghost-equal worlds afterwards, the same result. -/
 def RelW {α : Type} (x y : World × α) : Prop := GhostEq x.1 y.1 ∧ x.2 = y.2
@@ -71,23 +73,23 @@ theorem RelW.elim {α : Type} {x y : World × α} (h : RelW x y) :
 
 /-- take both worlds apart and identify their non-ghost fields. -/
 macro "ghost_destruct " w:ident w':ident h:ident : tactic => `(tactic| (
-  obtain ⟨store, writes, env, events, phases, phaseEvents, remoteRefs, applied, gw, crashAt, snap, ticks⟩ := $w
-  obtain ⟨store', writes', env', events', phases', phaseEvents', remoteRefs', applied', gw', crashAt', snap', ticks'⟩ := $w'
-  obtain ⟨h1, h2, h3, h4, h5, h6, h7, h8⟩ := $h
-  simp only at h1 h2 h3 h4 h5 h6 h7 h8
-  subst h1 h2 h3 h4 h5 h6 h7 h8))
+  obtain ⟨store, writes, env, events, phases, phaseEvents, remoteRefs, applied, gw, crashAt, snap, ticks, watched, snapW⟩ := $w
+  obtain ⟨store', writes', env', events', phases', phaseEvents', remoteRefs', applied', gw', crashAt', snap', ticks', watched', snapW'⟩ := $w'
+  obtain ⟨h1, h2, h3, h4, h5, h6, h7, h8, h9⟩ := $h
+  simp only at h1 h2 h3 h4 h5 h6 h7 h8 h9
+  subst h1 h2 h3 h4 h5 h6 h7 h8 h9))
 
 /-- close the leaves: the same constructor on both sides. -/
 macro "ghost_leaves" : tactic => `(tactic| (
   all_goals first
-    | exact ⟨⟨rfl, rfl, rfl, rfl, rfl, rfl, rfl, rfl⟩, rfl⟩
-    | exact ⟨rfl, rfl, rfl, rfl, rfl, rfl, rfl, rfl⟩
+    | exact ⟨⟨rfl, rfl, rfl, rfl, rfl, rfl, rfl, rfl, rfl⟩, rfl⟩
+    | exact ⟨rfl, rfl, rfl, rfl, rfl, rfl, rfl, rfl, rfl⟩
     | rfl))
 
 /-! ### the ghost bookkeeping itself and the write primitives -/
 
 /-- `tick` only touches ghost fields. -/
-theorem tick_ghost_self (w : World) : GhostEq w w.tick := ⟨rfl, rfl, rfl, rfl, rfl, rfl, rfl, rfl⟩
+theorem tick_ghost_self (w : World) : GhostEq w w.tick := ⟨rfl, rfl, rfl, rfl, rfl, rfl, rfl, rfl, rfl⟩
 
 theorem tick_ghost {w w' : World} (h : GhostEq w w') : GhostEq w.tick w'.tick :=
   (tick_ghost_self w).symm.trans (h.trans (tick_ghost_self w'))
@@ -126,22 +128,44 @@ theorem reconcileObjectWith_ghost (cfg : Cfg) (ow : Owner) (prev : List Prev) (p
     repeat' split
     ghost_leaves
 
+theorem watch_ghost {w w' : World} (h : GhostEq w w') (ow : Owner) (k : String) :
+    GhostEq (w.watch ow k) (w'.watch ow k) := by
+  ghost_destruct w w' h
+  simp only [World.watch]
+  ghost_leaves
+
+theorem free_ghost {w w' : World} (h : GhostEq w w') (r : WRef) : GhostEq (w.free r) (w'.free r) := by
+  ghost_destruct w w' h
+  simp only [World.free]
+  ghost_leaves
+
+theorem restart_ghost {w w' : World} (h : GhostEq w w') : GhostEq w.restart w'.restart := by
+  ghost_destruct w w' h
+  simp only [World.restart]
+  ghost_leaves
+
+theorem started_ghost {w w' : World} (h : GhostEq w w') (k : String) : w.started k = w'.started k := by
+  simp only [World.started, h.watched]
+
 theorem reconcileObject_ghost (cfg : Cfg) (ow : Owner) (prev : List Prev) (p : PObj)
     {w w' : World} (h : GhostEq w w') :
     RelW (reconcileObject cfg ow prev p w) (reconcileObject cfg ow prev p w') := by
-  simp only [reconcileObject, seen_ghost h]
-  exact reconcileObjectWith_ghost cfg ow prev p _ _ h
+  simp only [reconcileObject, seen_ghost h, started_ghost h]
+  split
+  · exact reconcileObjectWith_ghost cfg ow prev p _ _ h
+  · exact RelW.mk' h _
 
 /-- **`reconcilePhaseObject` does not read the ghost state.** -/
 theorem reconcilePhaseObject_ghost (cfg : Cfg) (ow : Owner) (prev : List Prev) (p : PObj)
     {w w' : World} (h : GhostEq w w') :
     RelW (reconcilePhaseObject cfg ow prev p w) (reconcilePhaseObject cfg ow prev p w') := by
-  simp only [reconcilePhaseObject, h.store]
+  have hw := watch_ghost h ow p.kind
+  simp only [reconcilePhaseObject_eq, h.store, seen_ghost h]
   split
   · exact RelW.mk' h _
   · split
-    · split <;> exact RelW.mk' h _
-    · exact reconcileObject_ghost cfg ow prev p h
+    · split <;> exact RelW.mk' hw _
+    · exact reconcileObjectWith_ghost cfg ow prev p _ _ hw
 
 theorem reconcilePhase_go_ghost (cfg : Cfg) (ow : Owner) (prev : List Prev) :
     ∀ (ps : List PObj) (failed : List String) {w w' : World}, GhostEq w w' →
@@ -201,7 +225,7 @@ theorem reconcilePhaseObjs_ghost (cfg : Cfg) (ow : Owner) (prev : List Prev) (ps
 theorem teardownPhaseObject_ghost (cfg : Cfg) (ow : Owner) (p : PObj) {w w' : World} (h : GhostEq w w') :
     RelW (teardownPhaseObject cfg ow p w) (teardownPhaseObject cfg ow p w') := by
   ghost_destruct w w' h
-  simp only [teardownPhaseObject, World.beforeWrite, World.tick, World.log]
+  simp only [teardownPhaseObject, World.watch, World.beforeWrite, World.tick, World.log]
   repeat' split
   ghost_leaves
 
